@@ -89,8 +89,8 @@ pub fn areas() -> Vec<&'static str> {
         "c18",
         "c19",
         "c20",
-        "tcploop",
         "node",
+        "tcploop",
     ]
 }
 
